@@ -191,13 +191,14 @@ theorem hull_not_reset_in_write_loop : Generated.C01.writeLoopResetsHull = false
 
 /-! ## "a write the server cannot serve back must be rejected, not acknowledged" -/
 
-/-- The clause at full strength: whatever request body the server **acknowledges** (`serveWrite … = some`), over any
+/-- The clause at full strength: whatever request body the server **acknowledges** (`serveWriteSized … = some`: `ServerIngestor.write`
+with the record-size limit it knows), over any
 readable partition, (a) the partition afterwards reads back as the old events followed by the acknowledged ones, and
 (b) the acknowledged events are what the strict decoder (`wpDrainStrict`: complete packet, every field text parses,
 write-level fields before own fields) gives for that body. -/
 def C01_full : Prop :=
   ∀ (parseKV : Bytes → Option Bytes) (maxChunk maxRec : Nat) (j j' : Journal) (body : Bytes) (es old : List Event),
-    1 ≤ maxChunk → readEvents maxRec j = some old → serveWrite parseKV maxChunk j body = some (j', es) →
+    1 ≤ maxChunk → readEvents maxRec j = some old → serveWriteSized parseKV maxChunk maxRec j body = some (j', es) →
     readEvents maxRec j' = some (old ++ es) ∧ ∃ tags, wpDrainStrict parseKV body = some (tags, es)
 
 theorem decodeAll_append (m : Nat) : ∀ (a b : List Bytes),
@@ -340,13 +341,21 @@ theorem ackd_implies_servable (parseKV : Bytes → Option Bytes) (maxChunk maxRe
 /-- the parser used by the counterexamples: `w=1`-style texts are irrelevant; only `""` parses -/
 def onlyEmpty (t : Bytes) : Option Bytes := if t = [] then some [] else none
 
-/-- **Counterexample, class (i)**: a record longer than `maxRecordSize` (15 bytes against 12) is acknowledged and
-afterwards the partition — readable before — cannot be read at all. -/
-theorem cex_oversize_record_acknowledged :
+/-- **Counterexample, class (i) — open finding F20a** (of the code as long as the ingestor does not check record sizes:
+regenerated fact `ingestorChecksRecordSize = false`): a record longer than `maxRecordSize` (15 bytes against 12) is acknowledged
+and afterwards the partition — readable before — cannot be read at all. -/
+theorem cex_oversize_record_acknowledged : Generated.C01.ingestorChecksRecordSize = false →
     readEvents 12 [] = some [] ∧
-    (match serveWrite onlyEmpty 100 [] (wpEncode [] [] [⟨1, [1, 2, 3, 4, 5], [], []⟩]) with
+    (match serveWriteSized onlyEmpty 100 12 [] (wpEncode [] [] [⟨1, [1, 2, 3, 4, 5], [], []⟩]) with
      | some (j', es) => decide (es = [⟨1, [1, 2, 3, 4, 5], []⟩] ∧ readEvents 12 j' = none)
      | none => false) = true := by decide
+
+/-- **With the proposed repair of F20a** (`proposed-fixes/F20a.diff`; fact `= true`) the same packet is rejected as a whole,
+and a record of exactly the limit is accepted -/
+theorem repaired_ingestor_rejects_oversize : Generated.C01.ingestorChecksRecordSize = true →
+    serveWriteSized onlyEmpty 100 12 [] (wpEncode [] [] [⟨1, [1, 2, 3, 4, 5], [], []⟩]) = none ∧
+    serveWriteSized onlyEmpty 100 12 [] (wpEncode [] [] [⟨7, [9], [], []⟩, ⟨1, [1, 2, 3, 4, 5], [], []⟩]) = none ∧
+    (serveWriteSized onlyEmpty 100 12 [] (wpEncode [] [] [⟨1, [1, 2], [], []⟩])).isSome = true := by decide
 
 /-- **Retired counterexample, class (ii)** — a statement about the OTHER branch of the regenerated fact (the code before
 /repo c6bbc14, `wpInitValidatesEvents = false`; vacuous on the current tree, see `repaired_init_rejects`): a request
@@ -373,11 +382,11 @@ theorem repaired_init_rejects :
     serveWrite onlyEmpty 100 [] (wpEncode [] [] [⟨1, [65], [], ofAscii "oops"⟩]) = none ∧
     serveWrite onlyEmpty 100 [] (wpEncode [] [] [⟨1, [65], [], []⟩, ⟨2, [66], [], ofAscii "oops"⟩]) = none := by decide
 
-/-- hence the full clause does not hold of the code as it is -/
-theorem not_C01_full : ¬ C01_full := by
-  intro h
-  obtain ⟨h2, h1⟩ := cex_oversize_record_acknowledged
-  cases hs : serveWrite onlyEmpty 100 [] (wpEncode [] [] [⟨1, [1, 2, 3, 4, 5], [], []⟩]) with
+/-- hence the full clause does not hold of the code as it is (F20a open) -/
+theorem not_C01_full : Generated.C01.ingestorChecksRecordSize = false → ¬ C01_full := by
+  intro hfact h
+  obtain ⟨h2, h1⟩ := cex_oversize_record_acknowledged hfact
+  cases hs : serveWriteSized onlyEmpty 100 12 [] (wpEncode [] [] [⟨1, [1, 2, 3, 4, 5], [], []⟩]) with
   | none => simp [hs] at h1
   | some p =>
     obtain ⟨j', es⟩ := p
@@ -385,6 +394,53 @@ theorem not_C01_full : ¬ C01_full := by
     have := (h onlyEmpty 100 12 [] j' _ es [] (by decide) h2 hs).1
     rw [h1.2] at this
     exact absurd this (by simp)
+
+/-- **The size `init` would check is the size that gets stored**: `LogEvent.WritableSize()` of the event with write-level fields
+followed by its own fields — what the proposed check computes — is exactly the length of the record `iwrapper` marshals for
+the event `wpIterator.Get` hands over (same fields by `wpFields_eq`; the timestamp has a fixed width). -/
+theorem init_size_eq_marshalled_size (parseKV : Bytes → Option Bytes) (wf : Bytes) (e : WEvent) (ef : Bytes)
+    (hp : parseKV e.fields = some ef) :
+    (⟨e.ts, e.msg, wf ++ ef⟩ : Event).writableSize = (recOf (storedModel parseKV wf e)).data.length := by
+  simp [recOf, storedModel, hp, wpFields_eq, writableSize_eq_marshal_length]
+
+/-- **Acknowledged ⇒ servable, without the F20a exclusion** — once the ingestor checks record sizes (fact `= true`) with the
+limit the readers use (`0 < maxRec`): for EVERY request body `ServerIngestor.write` acknowledges over a readable partition the
+partition reads back as old ++ acknowledged and the events are the strict decoder's. (`e.WF`: the decoded values are Go
+values — 64-bit timestamp, slices below 2⁶³ bytes.) -/
+theorem ackd_implies_servable_size_checked (hfact : Generated.C01.ingestorChecksRecordSize = true)
+    (parseKV : Bytes → Option Bytes) (maxChunk maxRec : Nat) (j j' : Journal) (body : Bytes)
+    (es old : List Event) (hm : 1 ≤ maxChunk) (hr : 0 < maxRec) (hold : readEvents maxRec j = some old)
+    (hack : serveWriteSized parseKV maxChunk maxRec j body = some (j', es))
+    (hwf : ∀ e ∈ es, e.WF) :
+    readEvents maxRec j' = some (old ++ es) ∧ ∃ tags, wpDrainStrict parseKV body = some (tags, es) := by
+  unfold serveWriteSized at hack
+  split at hack
+  · simp at hack
+  · rename_i hrej
+    -- the strict decoder yields the acknowledged events …
+    have hstrict : ∃ tags, wpDrainStrict parseKV body = some (tags, es) := by
+      unfold serveWrite at hack
+      cases hd : wpDrain parseKV body with
+      | err => simp [hd] at hack
+      | panic => simp [hd] at hack
+      | ok p =>
+        obtain ⟨tags, es0⟩ := p
+        simp only [hd] at hack
+        split at hack
+        · simp at hack
+        · simp only [Option.some.injEq, Prod.mk.injEq] at hack
+          exact ⟨tags, by rw [← hack.2]; exact acked_packet_is_strict parseKV body tags es0 hd⟩
+    obtain ⟨tags, hs⟩ := hstrict
+    -- … and none of them was too big, or the packet would have been rejected
+    have hfit : ∀ e ∈ es, e.WF ∧ e.marshal.length ≤ maxRec := by
+      intro e he
+      refine ⟨hwf e he, ?_⟩
+      have hne : (maxRec != 0) = true := by simp; omega
+      simp only [sizeRejected, hfact, hne, hs, Bool.true_and, Bool.not_eq_true, Bool.not_eq_false',
+        List.all_eq_true, decide_eq_true_eq] at hrej
+      rw [← writableSize_eq_marshal_length]
+      exact hrej e he
+    exact ackd_implies_servable parseKV maxChunk maxRec j j' body es old hm hold hack hfit
 
 /-- non-vacuity of `ackd_implies_servable_partial`: a two-event packet with write-level and own fields over a
 journal whose last chunk is full -/
